@@ -7,14 +7,20 @@ package main
 
 import (
 	"context"
+	"encoding/json"
 	"errors"
 	"fmt"
+	"io"
 	"time"
+
+	"github.com/pojntfx/panrpc/go/pkg/rpc"
 )
 
 func c04DeadlineScenarios(rep *Report, prop string) {
 	for _, api := range apis() {
-		for _, how := range []string{"deadline", "cancel"} {
+		// (… and the same two with a context that carries a CAUSE — WithTimeoutCause / WithCancelCause: what the call
+		// returns is the context's ERROR all the same)
+		for _, how := range []string{"deadline", "cancel", "deadline-cause", "cancel-cause"} {
 			for _, dir := range []string{"A->B", "B->A"} {
 				rep.Evaluations++
 				rep.Distinct++
@@ -54,9 +60,16 @@ func c04DeadlineOnce(api, how, dir string) string {
 	waitFor(func() bool { return parked("41") })
 	var ctx context.Context
 	var cancel context.CancelFunc
-	if how == "deadline" {
+	switch how {
+	case "deadline":
 		ctx, cancel = context.WithTimeout(context.Background(), 15*time.Millisecond)
-	} else {
+	case "deadline-cause":
+		ctx, cancel = context.WithTimeoutCause(context.Background(), 15*time.Millisecond, errors.New("user navigated away"))
+	case "cancel-cause":
+		c, cc := context.WithCancelCause(context.Background())
+		ctx, cancel = c, func() { cc(errors.New("user navigated away")) }
+		time.AfterFunc(15*time.Millisecond, cancel)
+	default:
 		ctx, cancel = context.WithCancel(context.Background())
 		time.AfterFunc(15*time.Millisecond, cancel)
 	}
@@ -66,7 +79,7 @@ func c04DeadlineOnce(api, how, dir string) string {
 		return "a call whose context ended (" + how + ") while its handler was running did not return"
 	}
 	wantErr := context.Canceled
-	if how == "deadline" {
+	if how == "deadline" || how == "deadline-cause" {
 		wantErr = context.DeadlineExceeded
 	}
 	if !errors.Is(r.err, wantErr) || r.val.(int) != 0 {
@@ -463,6 +476,61 @@ func c16CauseContexts(rep *Report, prop string) {
 				rep.addViolation("property", prop+":cause-context:"+api+":"+how+":hang", "Link did not return after its context (with a cause) ended", d)
 			}
 			p.Shutdown()
+		}
+	}
+}
+
+// c16CancelDuringConnectHook (C16): the link's context is cancelled while the application's OnClientConnect hook
+// for this very link is still running (slow hook). Link returns promptly with the context's error — it waits for
+// no hook — and the hook is left to finish on its own.
+func c16CancelDuringConnectHook(rep *Report, prop string) {
+	for _, api := range apis() {
+		rep.Evaluations++
+		rep.Distinct++
+		desc := map[string]any{"suite": "C16-cancel-during-connect-hook", "api": api}
+		reg := rpc.NewRegistry[c15StartRemote, json.RawMessage](&c15StartLocal{}, nil)
+		ctx, cancel := context.WithCancel(context.Background())
+		entered, release := make(chan struct{}), make(chan struct{})
+		hooks := &rpc.LinkHooks{OnClientConnect: func(string) { close(entered); <-release }}
+		closed := make(chan struct{})
+		read := func() (json.RawMessage, error) { <-closed; return nil, io.EOF }
+		write := func(json.RawMessage) error { return nil }
+		marshal := func(v any) (json.RawMessage, error) { b, err := json.Marshal(v); return b, err }
+		unmarshal := func(d json.RawMessage, v any) error { return json.Unmarshal(d, v) }
+		done := make(chan error, 1)
+		go func() {
+			if api == "message" {
+				done <- reg.LinkMessage(ctx, write, write, read, read, marshal, unmarshal, hooks)
+			} else {
+				done <- reg.LinkStream(ctx,
+					func(rpc.Message[json.RawMessage]) error { return nil },
+					func(*rpc.Message[json.RawMessage]) error { <-closed; return io.EOF },
+					marshal, unmarshal, hooks)
+			}
+		}()
+		select {
+		case <-entered:
+		case <-time.After(watchdog):
+			rep.addViolation("property", prop+":cancel-during-hook:"+api+":setup", "the connect hook was never called", desc)
+			cancel()
+			close(closed)
+			close(release)
+			continue
+		}
+		cancel()
+		select {
+		case err := <-done:
+			if !errors.Is(err, context.Canceled) {
+				rep.addViolation("property", prop+":cancel-during-hook:"+api, fmt.Sprintf("the link's context was cancelled while the connect hook was running: Link returned %v, want the context's error", err), desc)
+			}
+		case <-time.After(2 * time.Second):
+			rep.addViolation("property", prop+":cancel-during-hook:"+api, "the link's context was cancelled while the application's connect hook for this link was still running: 2 s later Link has not returned (it waits for the hook)", desc)
+		}
+		close(release)
+		close(closed)
+		select {
+		case <-done:
+		case <-time.After(100 * time.Millisecond):
 		}
 	}
 }
